@@ -27,6 +27,14 @@ claimed = {
    text="Decides from source: taint analysis over package fbb showing the callback's password can reach no writer, logger or error - only the MD5 hash (so it never appears on the wire for any input); every call through the callback field is protected by a non-nil test (clause reasoning over the early error exit) and that exit precedes all handshake output; the salt equals the 64 reference bytes and the hash covers challenge, password, salt (order checked when the payload is a plain concatenation); the ;PR line and each 'address|response' pair are computed by secureLoginResponse from the challenge and the callback's password for that very address, the pair only on the password-known edge, ;PR only after a successful callback; recognised-form checks of mask 0x3f on digest byte 3, %08d and last-eight slicing. Does not decide the numeric response for all challenge/password pairs (arithmetic on run-time values).",
    technique="interprocedural taint analysis on SSA with md5.Sum as declassifier; guard/clause dominance for the nil callback; constant table and data-dependence checks",
    ref="DESIGN.md section 4, C16"),
+ "C02": dict(
+   text="Decides from source, for all cut positions at once (facts about paths, not inputs): every report of a sent message (SetSent with rejected not provably true, TrafficStats.Sent) is dominated by payload write -> remote read -> nil-error edge -> a guard that lets only 'F' or ';' pass; early-reported rejected MIDs leave the pending set in the same step; in the receiver every path from a successful payload read to the next iteration / normal return / statistics passes ProcessInbound, whose error leaves the function, and which receives exactly the verified message; the directory mailbox answers 'already received' only on the success edge of opening in/<MID>.b2f. Does not decide bounded-time return, byte identity, or the multi-session eventually-exactly-once clause.",
+   technique="dominance and guard-chain analysis on SSA (edge dominance, exit-guard clauses), reachability avoiding a call, role summaries over the module call graph",
+   ref="DESIGN.md section 4, C02"),
+ "C04": dict(
+   text="Decides from source: the decompressor's Close verdict (CRC-16 + size) dominates every return of decoded data for every lzhuf.Reader created outside lzhuf, and Message parses only after that call's nil-error edge; the store accepting a received payload is dominated by pass edges of guards depending on all four integrity sources (running checksum, compressed size, header length byte, offset) whose failing edges reach error exits only; lzhuf Reader.Close returns nil only past guards on sticky errors, CRC (under the crc16 flag only) and size; delivery and sent-reporting chains shared with C02. Does not decide the checksum/CRC arithmetic itself nor which alterations a reference codec would also accept.",
+   technique="typestate-style dominance analysis on SSA (verdict before use), guard/data-dependence classification of integrity checks, error-exit classification",
+   ref="DESIGN.md section 4, C04"),
 }
 
 not_applicable = {
